@@ -1,6 +1,7 @@
 package core
 
 import (
+	"encoding/binary"
 	"encoding/json"
 	"fmt"
 	"hash/fnv"
@@ -13,6 +14,7 @@ import (
 	"strings"
 	"sync"
 	"sync/atomic"
+	"syscall"
 	"time"
 )
 
@@ -102,12 +104,55 @@ type Run struct {
 	outFile   string
 	cur       atomic.Pointer[map[string]any]
 	beat      atomic.Int64
+	curMap    []byte
 }
 
-// Begin notes the point about to be executed (for the hang watchdog).
+// Begin notes the point about to be executed (for the hang watchdog and, through
+// a memory-mapped file, for the parent when this worker process dies).
 func (r *Run) Begin(p map[string]any) {
 	r.cur.Store(&p)
 	r.beat.Add(1)
+	if r.curMap != nil {
+		e, _ := p["expr"].(string)
+		d, _ := p["doc"].(string)
+		if e == "" {
+			e, _ = p["lhs"].(string)
+		}
+		n := copy(r.curMap[8:curMapSize/2], e)
+		m := copy(r.curMap[curMapSize/2:], d)
+		binary.LittleEndian.PutUint32(r.curMap[0:], uint32(n))
+		binary.LittleEndian.PutUint32(r.curMap[4:], uint32(m))
+	}
+}
+
+const curMapSize = 1 << 16
+
+func (r *Run) mapCur(path string) {
+	f, err := os.OpenFile(path, os.O_RDWR|os.O_CREATE|os.O_TRUNC, 0o644)
+	if err != nil {
+		return
+	}
+	defer f.Close()
+	if f.Truncate(curMapSize) != nil {
+		return
+	}
+	m, err := syscall.Mmap(int(f.Fd()), 0, curMapSize, syscall.PROT_READ|syscall.PROT_WRITE, syscall.MAP_SHARED)
+	if err == nil {
+		r.curMap = m
+	}
+}
+
+func readCur(path string) map[string]any {
+	b, err := os.ReadFile(path)
+	if err != nil || len(b) < curMapSize {
+		return nil
+	}
+	n := int(binary.LittleEndian.Uint32(b[0:]))
+	m := int(binary.LittleEndian.Uint32(b[4:]))
+	if n == 0 && m == 0 || 8+n > curMapSize/2 || curMapSize/2+m > curMapSize {
+		return nil
+	}
+	return map[string]any{"expr": string(b[8 : 8+n]), "doc": string(b[curMapSize/2 : curMapSize/2+m])}
 }
 
 // watchdog ends the worker when one call has been running for hangLimit: the
@@ -249,14 +294,17 @@ func bitsEven(n int64) bool {
 	return z%2 == 0
 }
 
-// Current notes the input about to be executed, for phases in which a dying
-// worker is itself an observation.
-func (r *Run) Current(point map[string]any) {
-	if r.curFile == "" {
-		return
+// limitMemory caps the address space of a worker so that a run-away allocation
+// kills the worker (an observation for the input it was running) and not the machine.
+func limitMemory() {
+	gib := uint64(8)
+	if s := os.Getenv("VERIF_MEM_GIB"); s != "" {
+		if n, err := strconv.Atoi(s); err == nil && n > 0 {
+			gib = uint64(n)
+		}
 	}
-	b, _ := json.Marshal(point)
-	os.WriteFile(r.curFile, b, 0o644)
+	lim := syscall.Rlimit{Cur: gib << 30, Max: gib << 30}
+	syscall.Setrlimit(syscall.RLIMIT_AS, &lim)
 }
 
 // Violate records a failing point.
@@ -360,9 +408,8 @@ func ShardMain(id, tier, phase string, shard, n int, out string) int {
 	}
 	r := newRun(id, tier, phase, seed(), shard, n)
 	r.deadline = time.Now().Add(budget(tier))
-	if ph.CrashIsViolation {
-		r.curFile = out + ".cur"
-	}
+	r.mapCur(out + ".cur")
+	limitMemory()
 	r.outFile = out
 	hang := 60
 	if s := os.Getenv("VERIF_HANG_S"); s != "" {
@@ -518,10 +565,7 @@ func ParentMain(id, tier string) int {
 			out := filepath.Join(tmp, fmt.Sprintf("%s-%d.json", ph.Name, rs.i))
 			b, rerr := os.ReadFile(out)
 			if rs.err != nil || rerr != nil {
-				cur, _ := os.ReadFile(out + ".cur")
-				if ph.CrashIsViolation && len(cur) > 0 {
-					var pt map[string]any
-					json.Unmarshal(cur, &pt)
+				if pt := readCur(out + ".cur"); pt != nil && rerr != nil {
 					v := &Violation{Sig: id + "/worker-died/" + classifyCrash(rs.tail), Desc: "worker process died while executing this input: " + firstLine(rs.tail),
 						Point: pt, Expected: "call returns normally", Actual: "process killed: " + trunc(rs.tail, 600), Phase: ph.Name}
 					total.Violate(v)
@@ -632,24 +676,24 @@ func ParentMain(id, tier string) int {
 		traces = evals
 	}
 	cov := map[string]any{
-		"evaluations":                   evals,
-		"distinct_nontrivial":           len(total.Outcomes),
+		"evaluations":                        evals,
+		"distinct_nontrivial":                len(total.Outcomes),
 		"distinct_nontrivial_is_lower_bound": total.OutCap,
-		"nontrivial_evaluations":        total.C["nontrivial_evaluations"],
-		"rule":                          c.Rule,
-		"samples":                       samples,
-		"states":                        states,
-		"transitions":                   transitions,
-		"traces_validated_against_impl": traces,
-		"exhaustive":                    exhaustive,
-		"caps_hit":                      total.Caps,
-		"bounds":                        total.Bounds,
-		"counters":                      total.C,
-		"abstentions_by_reason":         total.Abstain,
-		"known_findings_matched":        knownMatched,
-		"notes":                         total.Notes,
-		"internal_errors":               total.Internal,
-		"violation_clusters":            len(total.Clusters),
+		"nontrivial_evaluations":             total.C["nontrivial_evaluations"],
+		"rule":                               c.Rule,
+		"samples":                            samples,
+		"states":                             states,
+		"transitions":                        transitions,
+		"traces_validated_against_impl":      traces,
+		"exhaustive":                         exhaustive,
+		"caps_hit":                           total.Caps,
+		"bounds":                             total.Bounds,
+		"counters":                           total.C,
+		"abstentions_by_reason":              total.Abstain,
+		"known_findings_matched":             knownMatched,
+		"notes":                              total.Notes,
+		"internal_errors":                    total.Internal,
+		"violation_clusters":                 len(total.Clusters),
 	}
 	if d, ok := total.C["oracle_determinate"]; ok && evals > 0 {
 		cov["determinate_fraction"] = float64(d) / float64(d+total.C["oracle_abstained"])
